@@ -542,7 +542,11 @@ func C07(c *hx.Ctx) {
 					if rr.Intn(3) == 0 {
 						b = byte(rr.Intn(3))
 					}
-					opsl = append(opsl, ref.Op{K: ref.OpLit, B: b})
+					near := 0
+					if rr.Intn(4) == 0 {
+						near = 1 + rr.Intn(4)
+					}
+					opsl = append(opsl, ref.Op{K: ref.OpLit, B: b, Near: near})
 				case "M":
 					opsl = append(opsl, ref.Op{K: ref.OpMatch, Dist: int64(e.D), Len: e.N})
 				case "R":
